@@ -15,14 +15,24 @@ const OLD: &[u8] = b"OLD-CONTENT\n";
 const OLD_STORE: &[u8] = b"[metadata]\nold = true\n";
 const BAD_STORE: &[u8] = b"metadata = 3\n";
 
+/// the device every write to which fails with ENOSPC while opening it (also with O_TRUNC) succeeds
+const DEV_FULL: &str = "/dev/full";
+fn dev_full_ok() -> bool {
+    use std::io::Write;
+    match std::fs::OpenOptions::new().write(true).truncate(true).open(DEV_FULL) { Ok(mut f) => f.write_all(b"x").is_err(), Err(_) => false }
+}
+/// f = a file with old content, d = a directory (opening for writing fails), w = a symbolic link to /dev/full (opening
+/// succeeds, every write of at least one byte fails: a WRITE-time fault, the disk-full case)
 fn put_pre(path: &Path, st: char) {
-    match st { 'f' => std::fs::write(path, OLD).unwrap(), 'd' => std::fs::create_dir(path).unwrap(), _ => {} }
+    match st { 'f' => std::fs::write(path, OLD).unwrap(), 'd' => std::fs::create_dir(path).unwrap(), 'w' => std::os::unix::fs::symlink(DEV_FULL, path).unwrap(), _ => {} }
 }
 
 /// raw state of an output path after the run: a(bsent) d(ir) o(ld content) n…(the buildpack's payload) x(anything else)
+/// w(still the link to the full device; never read - it would not end)
 fn state(path: &Path, old: &[u8], newtok: &dyn Fn(&[u8]) -> Option<String>) -> String {
     match std::fs::symlink_metadata(path) {
         Err(_) => "a".into(),
+        Ok(m) if m.file_type().is_symlink() && std::fs::read_link(path).map(|t| t == Path::new(DEV_FULL)).unwrap_or(false) => "w".into(),
         Ok(m) if m.is_dir() => "d".into(),
         Ok(_) => match std::fs::read(path) {
             Ok(b) if b == old => "o".into(),
@@ -52,7 +62,10 @@ fn is_new_launch(b: &[u8]) -> Option<String> {
     if only_keys(&t, &[]) { return Some("e".into()); }
     if let Some(p) = t.get("processes").and_then(|p| p.as_array()) {
         let cmd = p.first()?.get("command")?.as_array()?;
-        if p.len() == 1 && p[0].get("type")?.as_str()? == "tbpweb" && cmd.len() == 1 && cmd[0].as_str()? == "run" && only_keys(&t, &["processes"]) { return Some("n".into()); }
+        if p.len() == 1 && p[0].get("type")?.as_str()? == "tbpweb" && cmd.len() == 1 && cmd[0].as_str()? == "run" && only_keys(&t, &["processes"]) {
+            // the sized variant: one padding argument; the token carries the file's length
+            return match p[0].get("args") { None => Some("n".into()), Some(a) => { let a = a.as_array()?; (a.len() == 1 && a[0].as_str()?.bytes().all(|c| c == b'a') && p[0].as_table()?.len() == 3).then(|| format!("s{}", b.len())) } };
+        }
     }
     let l = t.get("labels")?.as_array()?;
     let sl = t.get("slices")?.as_array()?;
@@ -64,13 +77,19 @@ fn is_new_store(b: &[u8]) -> Option<String> {
     if t.len() != 1 { return None; }
     let m = t.get("metadata")?.as_table()?;
     if m.len() == 1 && m.get("tbp")?.as_str()? == "new" { return Some("n".into()); }
+    if m.len() == 2 && m.get("tbp")?.as_str()? == "new" && m.get("pad").and_then(|p| p.as_str()).map(|p| p.bytes().all(|c| c == b'a')).unwrap_or(false) { return Some(format!("s{}", b.len())); }
     (m.len() == 2 && m.get("tbp")?.as_str()? == "x" && m.get("nested")?.get("a")?.as_array()?.len() == 2).then(|| "x".to_string())
 }
 fn is_new_sbom(b: &[u8]) -> Option<String> {
     if b.is_empty() { return Some("e".into()); }
     if let Some(k) = b.strip_prefix(&[0xff, 0x00]) { return std::str::from_utf8(k).ok()?.parse::<u32>().ok().map(|k| format!("x{k}")); }
     let s = std::str::from_utf8(b).ok()?;
-    let k: u32 = s.strip_prefix("{\"tbp-sbom\":")?.strip_suffix('}')?.parse().ok()?;
+    let body = s.strip_prefix("{\"tbp-sbom\":")?.strip_suffix('}')?;
+    if let Some((k, pad)) = body.split_once(",\"pad\":\"") {
+        let k: u32 = k.parse().ok()?;
+        return pad.strip_suffix('"').filter(|p| p.bytes().all(|c| c == b'a')).map(|_| format!("s{}k{k}", b.len()));
+    }
+    let k: u32 = body.parse().ok()?;
     Some(format!("n{k}"))
 }
 
@@ -168,10 +187,14 @@ fn run_case(f: &[String]) -> String {
     match c[2] { "ok" => std::fs::write(&bpplan, "[[entries]]\nname = \"x\"\n").unwrap(), "missing" => {}, _ => std::fs::write(&bpplan, "entries = 3\n").unwrap() }
     // pre-existing outputs
     let p: Vec<&str> = pre.split('/').collect();
+    if p.len() != 5 || p[0].len() != 1 || p[1].len() != 1 || p[3].len() != 3 || p[4].len() != 3 { return "bad-fields".into(); }
+    if pre.contains('w') && !dev_full_ok() { return "no-dev-full".into(); }
     let plan_path = work.join("plan.toml");
     put_pre(&plan_path, p[0].chars().next().unwrap());
     put_pre(&layers.join("launch.toml"), p[1].chars().next().unwrap());
-    match p[2] { "v" => std::fs::write(layers.join("store.toml"), OLD_STORE).unwrap(), "m" => std::fs::write(layers.join("store.toml"), BAD_STORE).unwrap(), "d" => std::fs::create_dir(layers.join("store.toml")).unwrap(), _ => {} }
+    // store.toml is an input as well: a link to the full device would make the runtime's READ never end. `w` = a valid old
+    // store that the buildpack's build code replaces by the link (TBP_STORE_FULL), i.e. the fault appears between read and write
+    match p[2] { "v" | "w" => std::fs::write(layers.join("store.toml"), OLD_STORE).unwrap(), "m" => std::fs::write(layers.join("store.toml"), BAD_STORE).unwrap(), "d" => std::fs::create_dir(layers.join("store.toml")).unwrap(), _ => {} }
     let store_old: &[u8] = if p[2] == "m" { BAD_STORE } else { OLD_STORE };
     for (k, fm) in FMTS.iter().enumerate() {
         put_pre(&layers.join(format!("build.sbom.{fm}.json")), p[3].as_bytes()[k] as char);
@@ -194,6 +217,7 @@ fn run_case(f: &[String]) -> String {
     if let Some(v) = &bp_value { cmd.env(VAR_NAMES[0], v); }
     for (n, v) in &env_vals { cmd.env(n, OsStr::from_bytes(v)); }
     cmd.env("TBP_OUT", &out).env("TBP_DETECT", dbeh).env("TBP_BUILD", bbeh);
+    if p[2] == "w" { cmd.env("TBP_STORE_FULL", "1"); }
     if invoke == "path" { cmd.env("PATH", &bin); }
     if c[0] == "gone" && (invoke == "rel" || invoke == "dotdot" || bpkind == "@rel" || bpkind == "@empty") { return "bad-fields".into(); }
     if c[0] == "gone" {
@@ -295,7 +319,7 @@ fn mk(kind: &str, exe: &str, nargs: usize, desc: &str, vars: &str, ctx: &str, db
     let short = vars.len() == 6 && vars.bytes().all(|c| c == b'0' || c == b'1' || c == b'e');
     let vars: &str = &(if short { pv(vars) } else { vars.to_string() });
     let g = gate_of(exe, nargs, desc, vars);
-    let phase_err = ctx != "ok/ok/ok" && !(ctx == "ok/noenv/ok") || desc.ends_with(":bad") || pre.contains('d') || pre.contains("/m/");
+    let phase_err = ctx != "ok/ok/ok" && !(ctx == "ok/noenv/ok") || desc.ends_with(":bad") || pre.contains('d') || pre.contains('w') || pre.contains("/m/");
     let beh = if exe == "detect" { dbeh.to_string() } else if exe == "build" { bbeh.split(':').next().unwrap().to_string() } else { "-".into() };
     // the environment for the evidence: which variables are unset / set-but-not-text, whether any value is not the usual one
     let vt: Vec<&str> = vars.split(',').collect();
@@ -341,6 +365,87 @@ fn generate(tier: &str, seed: u64, emit: &mut dyn FnMut(Case)) {
             emit(mk("layout", exe, nargs, desc, "111111", "ok/ok/ok", "passplan", rep_b, "f/f/v/fff/fff", &format!("{disk}+{inv}")));
         }
     } } }
+    // W. WRITE-time faults: an output path that can be opened but not written (a link to /dev/full: ENOSPC on the first byte),
+    //    next to the open-time faults (`d`) of the blocks below. For every output file of both phases x payload size below / at /
+    //    above the 8 KiB of a buffered writer x the subsets of the result; several faulty outputs at once; closed gates.
+    //    A zero-byte payload makes no write at all (success is right there) - not generated, the driver refuses it.
+    if !dev_full_ok() {
+        let mut c = mk("wfault-skipped-no-dev-full", "detect", 2, "api:0.10:ok", "111111", "ok/ok/ok", "passplan", rep_b, "a/a/a/aaa/aaa", "sym");
+        c.tags.push(("wfault".into(), "skipped".into()));
+        emit(c);
+    } else {
+        let wtag = |mut c: Case, target: &str, size: &str, provided: bool| { c.tags.push(("wfault".into(), target.into())); c.tags.push(("wsize".into(), size.into())); c.tags.push(("wprovided".into(), u8::from(provided).to_string())); c };
+        // W1. detect: every behaviour that is not the zero-byte plan x the plan path on the full device x optional variable x platform
+        for dbeh in ["pass", "passplan", "passxplan", "fail", "err"] { for vars in ["111111", "111011"] { for plat in ["ok", "noenv", "bad"] { for descr in ["api:0.10:ok", "api:0.10:bad"] {
+            emit(wtag(mk("wdetect", "detect", 2, descr, vars, &format!("ok/{plat}/ok"), dbeh, "err", "w/a/a/aaa/aaa", "sym"), "plan", "fixed", dbeh.contains("plan")));
+        } } } }
+        // W2. build: one faulty output (8 of them) x size of the payload going there x 16 subsets of the four result groups
+        //     (the target's group absent = the faulty path is not written: success) x the other paths absent / pre-existing
+        let sizes: Vec<&str> = if thorough { vec!["n", "x", "s100", "s4096", "s8190", "s8191", "s8192", "s8193", "s16384", "s65536", "s1048576"] } else { vec!["n", "x", "s8191", "s8192", "s8193", "s65536"] };
+        let targets = ["launch", "store", "b.cdx", "b.spdx", "b.syft", "l.cdx", "l.spdx", "l.syft"];
+        let item_for = |t: &str, sz: &str| -> String {
+            let sized = sz.starts_with('s');
+            match t {
+                "launch" => if sized { format!("slaunch{}", &sz[1..]) } else if sz == "x" { "xlaunch".into() } else { "launch".into() },
+                "store" => if sized { format!("sstore{}", &sz[1..]) } else if sz == "x" { "xstore".into() } else { "store".into() },
+                _ => { let (side, fm) = t.split_once('.').unwrap(); format!("{side}{}.{fm}", if sized { sz } else if sz == "x" { "x" } else { "" }) }
+            }
+        };
+        let pre_with = |ws: &[&str], other: char| -> String {
+            let one = |t: &str| if ws.contains(&t) { 'w' } else { other };
+            format!("{}/{}/{}/{}/{}", other, one("launch"), if ws.contains(&"store") { 'w' } else if other == 'f' { 'v' } else { 'a' },
+                FMTS.iter().map(|f| one(&format!("b.{f}"))).collect::<String>(), FMTS.iter().map(|f| one(&format!("l.{f}"))).collect::<String>())
+        };
+        for (ti, t) in targets.iter().enumerate() { for (si, sz) in sizes.iter().enumerate() { for m in 0..16usize {
+            let group = match *t { "launch" => 0, "store" => 1, x if x.starts_with('b') => 2, _ => 3 };
+            let provided = m >> group & 1 == 1;
+            let mut it: Vec<String> = vec![];
+            let other_sz = |g: usize| sizes[(si + g + m) % sizes.len()];
+            if m & 1 != 0 { it.push(if group == 0 { item_for(t, sz) } else { item_for("launch", other_sz(0)) }); }
+            if m & 2 != 0 { it.push(if group == 1 { item_for(t, sz) } else { item_for("store", other_sz(1)) }); }
+            if m & 4 != 0 { for f in FMTS { let n = format!("b.{f}"); if group == 2 && n == *t { it.push(item_for(t, sz)); } else if (m + ti + si) % 3 != 0 || group != 2 { it.push(item_for(&n, other_sz(2))); } } }
+            if m & 8 != 0 { for f in FMTS { let n = format!("l.{f}"); if group == 3 && n == *t { it.push(item_for(t, sz)); } else if (m + ti + si) % 3 != 1 || group != 3 { it.push(item_for(&n, other_sz(3))); } } }
+            let pre = pre_with(&[*t], if (m + si) % 2 == 0 { 'f' } else { 'a' });
+            emit(wtag(mk("wbuild", "build", 3, "api:0.10:ok", if m % 5 == 0 { "111011" } else { "111111" }, "ok/ok/ok", "pass", &format!("ok:{}", it.join(",")), &pre, "sym"), t, sz, provided));
+        } } }
+        // W3. every SET of faulty outputs (256) with the complete result (the first failing write decides) and with a sparse one
+        for wm in 0..256usize {
+            let ws: Vec<&str> = targets.iter().enumerate().filter(|(k, _)| wm >> k & 1 == 1).map(|(_, t)| *t).collect();
+            let sz = sizes[wm % sizes.len()];
+            let full: Vec<String> = targets.iter().map(|t| item_for(t, sz)).collect();
+            emit(wtag(mk("wsets", "build", 3, "api:0.10:ok", "111111", "ok/ok/ok", "pass", &format!("ok:{}", full.join(",")), &pre_with(&ws, 'f'), "sym"), &format!("set{}", ws.len()), sz, !ws.is_empty()));
+            let sparse: Vec<String> = targets.iter().enumerate().filter(|(k, _)| (wm * 7 + k * 3) % 4 == 0).map(|(_, t)| item_for(t, sz)).collect();
+            let hit = targets.iter().enumerate().any(|(k, t)| (wm * 7 + k * 3) % 4 == 0 && ws.contains(t));
+            emit(wtag(mk("wsets", "build", 3, "api:0.10:ok", "111111", "ok/ok/ok", "pass", &format!("ok:{}", sparse.join(",")), &pre_with(&ws, 'a'), "sym"), &format!("set{}", ws.len()), sz, hit));
+        }
+        // W4. the same format provided twice onto a faulty path; build error / layer error beside faulty paths (nothing is written)
+        for (bbeh, prov) in [("ok:b.cdx,bs8191.cdx,l.syft", true), ("ok:l.spdx,lx.spdx,ls9000.spdx", true), ("ok:launch,slaunch8192,xlaunch,store,sstore8191", true), ("err", false), ("layererr", false), ("ok:", false)] {
+            for pre in ["a/w/w/www/www", "w/w/w/www/www", "f/w/v/www/aaa", "f/f/w/fff/www"] {
+                emit(wtag(mk("wrepeat", "build", 3, "api:0.10:ok", "111111", "ok/ok/ok", "pass", bbeh, pre, "sym"), "several", "mixed", prov));
+            }
+        }
+        // W5. closed gates and context errors in front of faulty paths: nothing may be written, so no write can fail
+        for exe in EXES { for (desc, nargs, vars, ctx) in [("api:0.9:ok", 9, "111111", "ok/ok/ok"), ("api:0.10:ok", 1, "111111", "ok/ok/ok"), ("api:0.10:ok", 9, "101111", "ok/ok/ok"), ("api:0.10:ok", 9, "011111", "ok/ok/ok"),
+                ("api:0.10:bad", 9, "111111", "ok/ok/ok"), ("api:0.10:ok", 9, "111111", "gone/ok/ok"), ("api:0.10:ok", 9, "111111", "ok/bad/ok"), ("api:0.10:ok", 9, "111111", "ok/ok/missing"), ("api:0.10:ok", 9, "111111", "ok/ok/ok")] {
+            let n = if nargs == 9 { right_args(exe) } else { nargs };
+            emit(wtag(mk("wgates", exe, n, desc, vars, ctx, "passplan", "ok:launch,store,b.cdx,l.syft", "w/w/w/www/www", "sym"), "all", "fixed", false));
+        } }
+        // W6. random: result lists of non-empty items (fixed and sized) against random pre-states in which every path is faulty 1 in 4
+        let witems = ["launch", "xlaunch", "slaunch8191", "slaunch8192", "slaunch300", "store", "estore", "xstore", "sstore8191", "sstore8193", "sstore70000", "b.cdx", "b.spdx", "bx.syft", "bx.cdx", "bs8191.cdx", "bs8192.spdx", "bs8193.syft", "bs100.cdx", "bs65536.spdx",
+            "l.cdx", "l.syft", "lx.spdx", "ls8191.syft", "ls8192.cdx", "ls20000.spdx", "ls8193.cdx"];
+        let n_w6 = if thorough { 6000 } else { 500 };
+        for idx in 0..n_w6 {
+            let mut r = Rng::for_case(seed ^ 0xF0_11, idx);
+            let n = r.below(8) as usize;
+            let it: Vec<&str> = (0..n).map(|_| *r.pick(&witems)).collect();
+            let pc = |r: &mut Rng| *r.pick(&['a', 'f', 'w', 'w', 'f', 'a', 'd', 'f']);
+            let three = |r: &mut Rng| (0..3).map(|_| pc(r)).collect::<String>();
+            let pre = format!("{}/{}/{}/{}/{}", pc(&mut r), pc(&mut r), r.pick(&["a", "v", "w", "w", "v", "m", "d", "a"]), three(&mut r), three(&mut r));
+            let nw = pre.matches('w').count();
+            let (exe, dbeh) = if r.chance(1, 6) { ("detect", *r.pick(&["pass", "passplan", "passxplan", "fail", "err"])) } else { ("build", "passplan") };
+            emit(wtag(mk("wrnd", exe, right_args(exe), "api:0.10:ok", if r.chance(1, 2) { "111111" } else { "111011" }, &format!("ok/{}/ok", r.pick(&["ok", "noenv"])), dbeh, &format!("ok:{}", it.join(",")), &pre, *r.pick(&["sym", "symn+rel", "realbuild+path"])), &format!("rnd{nw}"), "mixed", nw > 0));
+        }
+    }
     // V. the VALUES of the variables as a dimension, crossed with which variables are set. A requirement may not depend on what
     //    another variable holds: whatever CNB_TARGET_OS (…) says, a missing mandatory variable closes the gate, and no value closes it.
     let lists = val_lists();
